@@ -132,6 +132,7 @@ func genC03(seed int64, tier string) *Scenario {
 			}
 			if rng.Intn(3) == 0 {
 				holdOp(rng, &o, []string{"drain.begin", "drain.marked", "drain.snapshot", "drain.cancel", "drain.end", "cmd.ret", "deploy.done", "service.beforeDrain", "router.install", "deploy.beforeDispose"})
+				lockHoldOp(rng, &o)
 			}
 			a.Ops = append(a.Ops, o)
 		}
